@@ -174,8 +174,13 @@ def run_ref_paths(prog, vals, base, bounds, stats):
     return fk.explore(thunk), fk
 
 
-def check_template(sylt, tpl, bounds, stats, oracle="equiv"):
-    """returns a dict: status in {rejected, load_error, ok, diff, undecided, stuck}, details, counters"""
+SPLIT_MAX = 512
+
+
+def check_template(sylt, tpl, bounds, stats, oracle="equiv", _pin=None):
+    """returns a dict: status in {rejected, load_error, ok, diff, undecided, stuck}, details, counters.
+    When the solver answers `unknown` somewhere (non-linear terms) and every hole is an integer with a small domain, the
+    question is case-split over the hole values (each case re-explored with the holes pinned, so its queries are ground)."""
     t0 = time.time()
     res = {"status": "ok", "paths_ref": 0, "paths_lua": 0, "cut": 0, "undecided": 0, "queries": 0, "diffs": []}
     prog = tpl.prog; domains = tpl.domains
@@ -187,6 +192,9 @@ def check_template(sylt, tpl, bounds, stats, oracle="equiv"):
     except LuaSyntaxError as e:
         res["status"] = "load_error"; res["load_error"] = str(e); res["lua"] = lua; return res
     terms, vals, base = hole_terms(holes, domains)
+    if _pin:
+        base = base + [terms[n] == v for n, v in _pin.items()]
+        vals = dict(_pin)              # ground instance: both interpreters compute with the concrete values
     ast, seen = substitute_placeholders(ast, holes, vals)
     try:
         ref_paths, rfk = run_ref_paths(prog, vals, base, bounds, stats)
@@ -227,6 +235,22 @@ def check_template(sylt, tpl, bounds, stats, oracle="equiv"):
         if len(res["diffs"]) >= 3: break
     if res["diffs"]: res["status"] = "diff"
     elif res["undecided"]: res["status"] = "undecided"
+    if res["status"] == "undecided" and _pin is None and holes.order and all(holes.by_name[n][1] == "int" and n in domains for n in holes.order):
+        import itertools
+        rngs = [range(domains[n][0], domains[n][1] + 1) for n in holes.order]
+        size = 1
+        for r_ in rngs: size *= len(r_)
+        if size <= SPLIT_MAX:
+            und = 0
+            for combo in itertools.product(*rngs):
+                sub = check_template(sylt, tpl, bounds, stats, oracle, _pin=dict(zip(holes.order, combo)))
+                for k in ("paths_lua", "queries", "cut"): res[k] += sub.get(k, 0)
+                if sub["status"] == "diff": res["diffs"] += sub["diffs"][:1]
+                elif sub["status"] != "ok": und += 1
+                if len(res["diffs"]) >= 3: break
+            res["case_split"] = size
+            if res["diffs"]: res["status"] = "diff"
+            elif und == 0: res["status"] = "ok"; res["undecided_before_split"] = res["undecided"]; res["undecided"] = 0
     res["lua"] = lua
     res["wall_s"] = round(time.time() - t0, 3)
     return res
